@@ -600,7 +600,12 @@ func (e *engine) prepare(op Op) (*prepared, error) {
 		}
 		if tgt.kind == 'l' {
 			p.real = func() (starlark.Value, error) {
-				return e.call(helpers["getidx"], tgt.real.(starlark.Value), starlark.MakeInt(op.I))
+				// the element by index, or (Star) picked out of an iteration over the repeated field
+				h := "getidx"
+				if op.Star {
+					h = []string{"iteridx", "listidx", "foridx"}[(op.I+3)%3]
+				}
+				return e.call(helpers[h], tgt.real.(starlark.Value), starlark.MakeInt(op.I))
 			}
 			var want mElem
 			p.model = func(w *world, c *mctx) (*handle, error) {
